@@ -30,10 +30,12 @@ def main():
         try:
             rc, out = sh("git apply %s" % os.path.join(d, "patch.diff"), cwd=wt)
             back = 0
+            rc0, head = sh("git rev-parse HEAD", cwd=wt)
+            head = head.strip()
             while rc != 0 and back < 3:
                 # the change was made against an earlier commit of /repo (a later `fix:` touched the same lines): evaluate it there
                 back += 1
-                sh("git checkout -q --detach HEAD~%d" % back, cwd=wt)
+                sh("git checkout -q --detach %s~%d" % (head, back), cwd=wt)
                 rc, out = sh("git apply %s" % os.path.join(d, "patch.diff"), cwd=wt)
             if rc != 0:
                 print(json.dumps({"name": name, "error": "patch does not apply"}))
